@@ -397,6 +397,79 @@ func init() {
 		}
 		return false
 	}})
+	// ---- script rules that start at a height or with a deployment -------
+	// Inside one block an output locked by a small script is created and
+	// spent.  Whether the spend is valid depends on the script flags the
+	// block is validated with: CHECKLOCKTIMEVERIFY from the BIP65 height,
+	// CHECKSEQUENCEVERIFY with the CSV deployment, witness programs with
+	// segwit/taproot.  Before that the opcodes are NOPs and the programs are
+	// anyone-can-spend: the verdict must flip exactly at activation.
+	gated := func(name, class string, applies func(bp *blockPlan) bool, script func(bp *blockPlan) []byte, version int32, seq uint32, lock func(bp *blockPlan) uint32) {
+		reg(&mutation{name: name, class: class, txs: func(bp *blockPlan) bool {
+			if !applies(bp) {
+				return false
+			}
+			op, rec, ok := bp.pickSpendable("m-in")
+			if !ok || rec.Value < 3000 {
+				return false
+			}
+			sc := script(bp)
+			a := bp.simpleSpend(op, rec, 0, func(p *txPlan) { p.Outs[0].PkScript = sc })
+			arec := &utxoRec{Value: a.Msg.TxOut[0].Value, PkScript: sc, Height: bp.height, Kind: KTrue}
+			p := &txPlan{Version: version, Lock: lock(bp), Ins: []planIn{{Op: wire.OutPoint{Hash: a.Hash}, Rec: arec, Seq: seq}},
+				Outs: []*wire.TxOut{{Value: arec.Value - 100, PkScript: bp.w.script(KTrue, 0)}}}
+			bp.addTx(bp.w.makeTx(p), 100)
+			return true
+		}})
+	}
+	num := func(n int64, op byte) []byte {
+		sc, err := txscript.NewScriptBuilder().AddInt64(n).AddOp(op).AddOp(txscript.OP_DROP).AddOp(txscript.OP_TRUE).Script()
+		if err != nil {
+			panic(err)
+		}
+		return sc
+	}
+	cltvOn := func(bp *blockPlan) bool { return bp.height >= bp.w.Net.BIP65 }
+	cltvOff := func(bp *blockPlan) bool { return !cltvOn(bp) }
+	always := func(bp *blockPlan) bool { return true }
+	// the spender's lock time is height-1 (final in this block)
+	lockBelow := func(bp *blockPlan) uint32 { return uint32(bp.height - 1) }
+	noLock := func(bp *blockPlan) uint32 { return 0 }
+	cltvAt := func(off int32) func(bp *blockPlan) []byte {
+		return func(bp *blockPlan) []byte { return num(int64(bp.height-1+off), txscript.OP_CHECKLOCKTIMEVERIFY) }
+	}
+	gated("cltv-unmet-after-bip65", ClsConnect, cltvOn, cltvAt(1), 1, 0xfffffffe, lockBelow)
+	gated("cltv-unmet-before-bip65", ClsValid, cltvOff, cltvAt(1), 1, 0xfffffffe, lockBelow)
+	gated("cltv-met-exactly", ClsValid, always, cltvAt(0), 1, 0xfffffffe, lockBelow)
+	// a final input (sequence 0xffffffff) defeats CLTV even when the lock time is met
+	gated("cltv-final-sequence-after-bip65", ClsConnect, cltvOn, cltvAt(0), 1, 0xffffffff, lockBelow)
+	csvOn := func(bp *blockPlan) bool { return bp.csv }
+	csvOff := func(bp *blockPlan) bool { return !bp.csv }
+	csv5 := func(bp *blockPlan) []byte { return num(5, txscript.OP_CHECKSEQUENCEVERIFY) }
+	csv0 := func(bp *blockPlan) []byte { return num(0, txscript.OP_CHECKSEQUENCEVERIFY) }
+	// the input's sequence has the disable bit set: no BIP68 lock, but
+	// CHECKSEQUENCEVERIFY itself fails once it is a rule
+	gated("csv-opcode-unmet-after-activation", ClsConnect, csvOn, csv5, 2, 0x80000004, noLock)
+	gated("csv-opcode-unmet-before-activation", ClsValid, csvOff, csv5, 2, 0x80000004, noLock)
+	gated("csv-opcode-met-zero", ClsValid, always, csv0, 2, 0, noLock)
+	// transaction version 1 cannot satisfy CHECKSEQUENCEVERIFY
+	gated("csv-opcode-version-1-after-activation", ClsConnect, csvOn, csv0, 1, 0, noLock)
+	// witness programs spent with an empty witness
+	segOn := func(bp *blockPlan) bool { return bp.segwit }
+	segOff := func(bp *blockPlan) bool { return !bp.segwit }
+	wpkh := func(bp *blockPlan) []byte { return bp.w.script(KP2WPKH, 0) }
+	gated("p2wpkh-empty-witness-after-segwit", ClsConnect, segOn, wpkh, 1, 0xffffffff, noLock)
+	gated("p2wpkh-anyone-can-spend-before-segwit", ClsValid, segOff, wpkh, 1, 0xffffffff, noLock)
+	tapOn := func(bp *blockPlan) bool { return bp.w.active(bp.parent, chaincfg.DeploymentTaproot) }
+	tapOff := func(bp *blockPlan) bool { return !tapOn(bp) }
+	tap32 := func(bp *blockPlan) []byte {
+		sc := []byte{txscript.OP_1, 32}
+		sc = append(sc, bp.w.PKH[0]...)
+		return append(sc, bp.w.PKH[0][:12]...)
+	}
+	gated("taproot-empty-witness-after-activation", ClsConnect, tapOn, tap32, 1, 0xffffffff, noLock)
+	gated("taproot-anyone-can-spend-before-activation", ClsValid, tapOff, tap32, 1, 0xffffffff, noLock)
+
 	// ---- signature-operation limits -------------------------------------
 	// Legacy sigops are counted over every script of the block (x4 cost);
 	// the limit is 80000 cost = 20000 legacy sigops.  The padding output is a
